@@ -32,6 +32,27 @@ CHECKS = {
         note="whitespace alphabet from spec/concrete.json (ASCII controls, NEL, NBSP, EM SPACE, IDEOGRAPHIC SPACE); bounded by MaxTop",
         ref="DESIGN.md section 6 C18",
     ),
+    "C02": dict(
+        engine="Trace_Tokens",
+        technique="sources enumerated by TLC (MC_Strings) + corpus mutants; recorded tokenize/parse/render outcomes judged by TLC "
+                  "(Trace_Tokens.tla: OutcomeOK); generated programs over type-confused data replayed",
+        text="every string of <=4 symbols over the markup alphabet and <=3-4 over the expression alphabet inside output/if/for/liquid "
+             "wrappers, the golden corpus and its prefixes/single-edit mutants are tokenized, parsed and rendered; TLC evaluates on each "
+             "recorded trace that only LiquidError subclasses escape and that str()/detailed_message()/context() succeed; the programs "
+             "of the confused/flow/loops/scopes focuses (every filter and tag over wrong-typed, huge, negative, nan/inf data) are rendered "
+             "with the same oracle",
+        note="bounded alphabets/lengths; termination observed (every case finished), not timed; trusted: TLC, Json/IOUtils, CPython",
+        ref="DESIGN.md section 6 C02",
+    ),
+    "C17": dict(
+        engine="Trace_Tokens",
+        technique="C->S trace validation: token trees recorded from tokenize() judged by TLC invariants Tiling / Nested / SpanIsText / positions",
+        text="for every enumerated source (TLC, MC_Strings), the corpus and its mutants the token tree (markup tokens with nested "
+             "expression, path, range, template-string and line-statement tokens) and every error/node position are recorded and TLC "
+             "evaluates Tiling, Nested, SpanIsText and 0<=pos<len(source) on each trace",
+        note="ASCII + placeholder alphabet (TLC strings); no token-level lexer model yet: the invariants are evaluated on observed tokens",
+        ref="DESIGN.md section 6 C17",
+    ),
     "C14": dict(
         engine="LiquidCache",
         technique="TLA+ model of the caching loaders (LiquidCache.tla) checked by TLC; every bounded history "
